@@ -260,6 +260,9 @@ func c10Case(w *core.W, j int) {
 	an := algName(alg)
 	sl := signableLayouts()
 	l := sl[g.R.IntN(len(sl))]
+	if j%3 == 0 {
+		l = sl[(j/3)%len(sl)] // every third case walks the list, so that each type is signed in every run
+	}
 	g.Plain = j%3 == 0
 	wild := j%4 == 1
 	owner := append(model.Name{g.Label()}, zone...)
